@@ -466,6 +466,16 @@ impl ArchiveIndex {
         let mut footer_hash = vec![0u8; footer_hash_bytes as usize];
         reader.read_exact(&mut footer_hash)?;
 
+        // The footer was located with the hash-size byte found 13 bytes before the end of
+        // the file; that is the footer's own field only when the hash has 8 bytes. A footer
+        // that states another size was cut at the wrong place: refuse it instead of
+        // accepting a hash of the wrong length.
+        if footer_hash_bytes != footer_hash_bytes_check {
+            return Err(ArchiveError::InvalidFormat(format!(
+                "Inconsistent footer hash size: {footer_hash_bytes} at end-13, {footer_hash_bytes_check} in the footer"
+            )));
+        }
+
         let footer = IndexFooter {
             toc_hash,
             version,
@@ -1120,6 +1130,16 @@ impl ChunkedArchiveIndex {
 
         let mut footer_hash = vec![0u8; footer_hash_bytes as usize];
         StdRead::read_exact(&mut file, &mut footer_hash)?;
+
+        // The footer was located with the hash-size byte found 13 bytes before the end of
+        // the file; that is the footer's own field only when the hash has 8 bytes. A footer
+        // that states another size was cut at the wrong place: refuse it instead of
+        // accepting a hash of the wrong length.
+        if footer_hash_bytes != footer_hash_bytes_check {
+            return Err(ArchiveError::InvalidFormat(format!(
+                "Inconsistent footer hash size: {footer_hash_bytes} at end-13, {footer_hash_bytes_check} in the footer"
+            )));
+        }
 
         let footer = IndexFooter {
             toc_hash,
